@@ -650,11 +650,14 @@ fn c05_case(ctx: &Ctx, case: u64, acc: &mut Acc) -> Verdict {
     let sim_seed = r.next();
     // joins staggered (timers of different members out of phase) or all at the same instant (aligned timers)
     let join = *r.pick(&[Join::SeqToFirst, Join::SeqToFirst, Join::BurstToFirst, Join::Chain]);
-    let Some(mut f) = formed_with(sim_seed, n, &cfg, Renew::Bump, (1, R / 4), join, acc)? else {
+    // a third of the cases with latencies up to 0.9 rtt (indirect probes routinely in play)
+    let lat = if Rng64::derive(ctx.seed, 0xC05A, case).chance(1, 3) { (1, R * 9 / 10) } else { (1, R / 4) };
+    let Some(mut f) = formed_with(sim_seed, n, &cfg, Renew::Bump, lat, join, acc)? else {
         acc.inconclusive += 1;
         return Ok(());
     };
     acc.tally(&format!("c05_join/{join:?}"), 1);
+    acc.tally(if lat.1 > R / 4 { "c05_latency/below_0.9_rtt" } else { "c05_latency/below_rtt_quarter" }, 1);
     let mut nop = |_: &Sim, _: usize, _: &CallRec| -> Result<(), V> { Ok(()) };
     let asymmetric = case % 5 == 4;
     let t0 = f.sim.now;
